@@ -411,7 +411,19 @@ def threads(shard, rec, lib, scratch):
         for rd in range(shard["rounds"]):
             nthreads, nops = 8, 6
             # few distinct probes, shared between threads (aim at shared state)
-            pool = [make_probe(rnd, op=rnd.choice(["fix", "fix", "bulk", "label"])) for _ in range(5)]
+            pool = [make_probe(rnd, op=rnd.choice(["fix", "fix", "bulk", "label"])) for _ in range(3)]
+            # ... plus pairs the default strategy cannot repair, asked for in relaxed mode (its fallbacks run long), and pairs
+            # that need many default-mode steps: their executions overlap inside the strategies
+            for _k in range(2):
+                hb = G.midtone_bg(rnd)
+                ht = tuple(rnd.choice([0, 51, 255, 230]) for _ in range(3))
+                pool.append({"op": "fix", "text": list(ht), "tk": "tuple", "bg": list(hb), "bk": "tuple", "large": False, "mode": 2, "vr": rnd.random() < 0.5,
+                             "t": list(ht), "b": list(hb)})
+            for _k in range(3):
+                g = G.below(rnd, False, rnd.random() < 0.5, lo=0.25, hi=0.6)
+                if g:
+                    pool.append({"op": "fix", "text": list(g[0]), "tk": "tuple", "bg": list(g[1]), "bk": "tuple", "large": False, "mode": 1, "vr": False,
+                                 "t": list(g[0]), "b": list(g[1])})
             plans = [[pool[rnd.randrange(len(pool))] for _ in range(nops)] for _ in range(nthreads)]
             ref = {json.dumps(p, sort_keys=True): run_probe(lib, p) for p in pool}   # sequential reference
             results = [[None] * nops for _ in range(nthreads)]
